@@ -347,6 +347,14 @@ pub fn run(tier: Tier) -> i32 {
     let samples: Mutex<Vec<serde_json::Value>> = Mutex::new(vec![]);
 
     work.par_iter().enumerate().for_each(|(wi, (ki, form, base, d))| {
+        // every case is assembled on a thread that has just assembled another program in which
+        // the target's name is a variable, a constant or an alias (every third case each): a
+        // target is the label of *this* program
+        let _ = sut::build_str(match wi % 3 {
+            0 => ".set target_l = 3\n.set zero_l = 1\nldi r16, target_l\n",
+            1 => ".equ target_l = 2 + 1\n.equ zero_l = target_l\n.dw target_l / 0\n",
+            _ => ".def target_l = r17\n.macro target_l\nnop\n.endm\nmov target_l, r0\n",
+        });
         let k = &kinds[*ki];
         let mut local_seqs = vec![];
         let mut any = false;
